@@ -36,7 +36,43 @@ fn run_l1(c: &ArgvCase) -> cli::Run {
     }
 }
 
+/// "valid but for one twist": a whole valid `version` / `flow` command line (the generators of
+/// C01 and C04) with one to three adversarial flags added, so that hostile values reach the late
+/// pipeline stages instead of dying in argument validation
+fn hybrid_case() -> BoxedStrategy<ArgvCase> {
+    let split = |argv: Vec<String>| -> Vec<(String, Option<String>)> {
+        argv.into_iter()
+            .filter_map(|a| {
+                let a = a.strip_prefix("--")?.to_string();
+                Some(match a.split_once('=') {
+                    Some((n, v)) => (n.to_string(), Some(v.to_string())),
+                    None => (a, None),
+                })
+            })
+            .collect()
+    };
+    prop_oneof![
+        3 => (crate::props::c01::case_strategy(), ga::adversarial_flags("version"), any::<bool>()).prop_map(move |(c, adv, front)| {
+            let stdin = c.stdin.as_ref().and_then(|z| z.to_zerv().ok()).map(|z| z.to_string());
+            let mut flags = split(crate::props::c01::argv(&c));
+            let adv: Vec<_> = adv.into_iter().take(3).collect();
+            if front { flags.splice(0..0, adv); } else { flags.extend(adv); }
+            ArgvCase { sub: 0, flags, positional: None, stdin }
+        }),
+        2 => (crate::props::c04::case_strategy(), ga::adversarial_flags("flow")).prop_map(move |(c, adv)| {
+            let (argv, stdin) = crate::props::c04::build_argv(&c);
+            let mut flags = split(argv);
+            flags.extend(adv.into_iter().take(2));
+            ArgvCase { sub: 1, flags, positional: None, stdin }
+        }),
+    ]
+    .boxed()
+}
+
 pub fn argv_case() -> BoxedStrategy<ArgvCase> {
+    prop_oneof![3 => plain_argv_case(), 2 => hybrid_case()].boxed()
+}
+fn plain_argv_case() -> BoxedStrategy<ArgvCase> {
     let positional = prop_oneof![
         3 => crate::props::c08::mutate(crate::props::c08::valid_semver()),
         3 => crate::props::c09::mutate(crate::props::c09::spelled()),
@@ -335,7 +371,7 @@ fn check_special(which: &usize, cx: &mut Cx) -> Res {
         crate::gitlab::git_env(&mut cmd);
         cmd.current_dir(&dir).args(args).output().ok();
     };
-    let (spec, what): (proc::Spec, &str) = match which % 8 {
+    let (spec, what): (proc::Spec, &str) = match which % 14 {
         0 => (proc::Spec { args: cli::sv(&["version", "-C", &d]), ..Default::default() }, "-C is not a repository"),
         1 => {
             git(&["init", "-q", "-b", "main", "."]);
@@ -355,16 +391,64 @@ fn check_special(which: &usize, cx: &mut Cx) -> Res {
             std::fs::write(dir.join(".git"), "gitdir: /nonexistent\n").ok();
             (proc::Spec { args: cli::sv(&["version", "-C", &d]), ..Default::default() }, ".git is a dangling gitdir file")
         }
-        _ => {
+        7 => {
             git(&["init", "-q", "-b", "main", "."]);
             std::fs::write(dir.join(".git").join("HEAD"), "garbage\n").ok();
             (proc::Spec { args: cli::sv(&["flow", "-C", &d]), ..Default::default() }, "corrupt HEAD")
         }
+        n => {
+            // unusual but healthy repositories: shallow clones, a linked work tree, a bare clone
+            let o = dir.join("origin");
+            std::fs::create_dir_all(&o).ok();
+            let og = |args: &[&str]| {
+                let mut cmd = std::process::Command::new("git");
+                crate::gitlab::git_env(&mut cmd);
+                cmd.env("GIT_AUTHOR_DATE", "1600000000 +0000").env("GIT_COMMITTER_DATE", "1600000000 +0000");
+                cmd.current_dir(&o).args(args).output().ok();
+            };
+            og(&["init", "-q", "-b", "main", "."]);
+            for i in 0..5 {
+                std::fs::write(o.join("f.txt"), format!("{i}\n")).ok();
+                og(&["add", "f.txt"]);
+                og(&["commit", "-q", "-m", &format!("c{i}")]);
+                if i == 2 {
+                    og(&["tag", "v1.2.3"]);
+                }
+            }
+            let url = format!("file://{}", o.to_string_lossy());
+            let clone = format!("{d}/clone");
+            let (depth, sub, what): (Option<&str>, &str, &str) = match n {
+                8 => (Some("3"), "version", "shallow clone, tag inside the cut-off history, ahead of the tag"),
+                9 => (Some("3"), "flow", "shallow clone, flow, ahead of the tag"),
+                10 => (Some("1"), "version", "shallow clone of depth 1: the tag is cut off"),
+                11 => (Some("4"), "version", "shallow clone with -v"),
+                12 => (None, "version", "linked work tree (git worktree add)"),
+                _ => (None, "version", "bare clone"),
+            };
+            match (n, depth) {
+                (_, Some(dp)) => git(&["clone", "-q", "--depth", dp, &url, "clone"]),
+                (12, _) => og(&["worktree", "add", "-q", &clone, "-b", "wt"]),
+                _ => git(&["clone", "-q", "--bare", &url, "clone"]),
+            }
+            let mut args = cli::sv(&[sub, "-C", &clone]);
+            if n == 11 {
+                args.insert(0, "-v".into());
+            }
+            (proc::Spec { args, ..Default::default() }, what)
+        }
     };
     let o = proc::run(&spec);
-    cx.note(|| format!("{what}: exit {:?}, stderr {:?}", o.code, o.err_str().trim()));
+    cx.note(|| format!("{what}: exit {:?}, stdout {:?}, stderr {:?}", o.code, o.out_str(), o.err_str().trim().chars().take(200).collect::<String>()));
     contract(&o, what)?;
-    ensure!(o.code == Some(1), "{what}: expected a clean failure, got exit {:?} with stdout {:?}", o.code, o.out_str());
+    if which % 14 < 8 {
+        ensure!(o.code == Some(1), "{what}: expected a clean failure, got exit {:?} with stdout {:?}", o.code, o.out_str());
+    } else if o.code == Some(0) {
+        let out = o.out_str();
+        ensure!(out.ends_with('\n') && out.trim_end_matches('\n').lines().count() == 1, "{what}: stdout is not exactly the one result line: {out:?}");
+    }
+    if matches!(which % 14, 8 | 9 | 11 | 12) {
+        ensure!(o.code == Some(0), "{what}: expected a version, got exit {:?}: {}", o.code, o.err_str().trim());
+    }
     Ok(())
 }
 
@@ -433,8 +517,8 @@ pub fn property() -> Property {
     )
     .shrink_iters(20);
     let deep = RandomSub::<DeepCase>::new("deep-templates", (320, 6_000), |_| deep_case(), check_deep).shrink_iters(60).floor(0.3);
-    let special = EnumSub::<usize>::new("special-states", "8 environment faults: -C not a repository / nonexistent, repository without commits (version, flow), git missing from PATH (two ways), dangling gitdir file, corrupt HEAD", |_t, shard, n, visit| {
-        for i in 0..8usize {
+    let special = EnumSub::<usize>::new("special-states", "8 environment faults (-C not a repository / nonexistent, repository without commits (version, flow), git missing from PATH (two ways), dangling gitdir file, corrupt HEAD) and 6 unusual healthy repositories (shallow clones with the tag inside / outside the history, with -v, flow; a linked work tree; a bare clone)", |_t, shard, n, visit| {
+        for i in 0..14usize {
             if i % n == shard && !visit(&i) {
                 return;
             }
